@@ -140,8 +140,10 @@ def run_case(seed, root, params=None):
             files = sim.primary() if r.ok else None
             aux = parse_aux(w.build) if r.ok else None
             trace.append([v[0], v[1], sorted(v[2]), v[3], r.status,
-                          hashlib.sha256(repr(sorted((files or {}).items()))
-                                         .encode()).hexdigest()[:12]])
+                          hashlib.sha256(repr(sorted(
+                              (k, v.replace(w.root, '$W'))
+                              for k, v in (files or {}).items()))
+                              .encode()).hexdigest()[:12]])
             if vi == 0:
                 if not r.ok:
                     raise HarnessError('baseline configure failed:\n' +
